@@ -47,6 +47,11 @@ FAULT_POINTS = [
     {"kind": "slow", "d": 2.5, "persist": True},
     {"kind": "garbage_out", "b": "Loading site plugins...\n", "keep": True, "persist": True},
     {"kind": "crash", "sig": 9, "k": 0, "d": 0.3, "persist": True},
+    # (appended in round 4; indices above are referred to elsewhere)
+    # the result is printed but the helper cannot exit (the function left a non-daemon thread running)
+    {"kind": "linger", "d": 0.2},
+    # a descendant that ignores SIGTERM/SIGINT/SIGHUP: only SIGKILL to the group ends it
+    {"kind": "orphan", "life": "inf", "d": 0.2, "ignores_term": True},
 ]
 for _p in FAULT_POINTS:
     if isinstance(_p.get("b"), dict):
